@@ -65,7 +65,18 @@ def sanitize_variable_names(
                 sanitized_expr.append(f"`{variable_name}")
             else:
                 next(expr_parts)
-                new_name = sanitize_variable_name(variable_name, env, template=template)
+                new_name = next(
+                    (
+                        alias
+                        for alias, name in aliases.items()
+                        if name == variable_name
+                    ),
+                    None,
+                )  # the same name again: the same placeholder
+                if new_name is None:
+                    new_name = sanitize_variable_name(
+                        variable_name, env, template=template
+                    )
                 while aliases.get(new_name, variable_name) != variable_name:
                     new_name += "_"
                 aliases[new_name] = variable_name
